@@ -36,7 +36,7 @@ STRUCT_HOLES = [
 ]
 
 QUERY_HOLES = [
-    ('qMetalV1', 0x0060707ffc1fff87), ('qMetalV2', 0xfffffff7fffffff0), ('qMetalV3', 0xffffffffc0007fff), ('qMetalV4', 0xffffffffffffffff),
+    ('qMetalV1', 0x0060707ffc1fff87), ('qMetalV2', 0xfffffff3fffffff0), ('qMetalV3', 0xffffffffc0007fff), ('qMetalV4', 0xffffffffffffffff),
     ('qAnyV1', 0x01ffffffffffffff), ('qAnyV2', 0xfffffffffffffff0), (F, 0),
     ('qlTransferZ', 56), ('qlHeavyGt', 116), ('qlHeavyCap', 116), ('qlTransferBit', 1), (F, 1), ('qlHiBase', 120), (F, 1), ('qlLoBase', 57),
     ('qeTransferZ', 56), ('qeHeavyGt', 116), ('qeHeavyCap', 116), ('qeTransferBit', 1), (F, 1), ('qeHiBase', 120), (F, 1), ('qeLoBase', 57),
